@@ -255,9 +255,20 @@ theorem phrase_nf_hasV (sp : Spec) (ty : Typ) (w0 : Tok) (ws' : List Tok)
             flatVP, flatVP_append, flatVP_words, flatVP_objNodes, flatVP_ppNodes, agrPlain, ppToks] <;>
           exact fin _
 
-/-- the words contain no V (`cannot` alone): nothing is fronted; a tag question raises -/
+theorem find?_V_words_none (ws : List Tok) (hv : hasV ws = false) (C : List PNode)
+    (hC : C.find? (fun n => n.ct == .V) = none) :
+    (ws.map PNode.word ++ C).find? (fun n => n.ct == .V) = none := by
+  rw [List.find?_append, hC]
+  have : (ws.map PNode.word).find? (fun n => n.ct == .V) = none := by
+    rw [List.find?_eq_none]
+    intro x hx
+    have := findIdx_V_words ws hv x hx
+    simpa using this
+  simp [this]
+
+/-- the words contain no V (`cannot` alone): nothing is fronted; a tag question is silently not produced -/
 theorem phrase_nf_noV (sp : Spec) (ty : Typ) (ws' : List Tok)
-    (hw : ws'.all Tok.isWord = true) (hv : hasV ws' = false) (hi : ty.int ≠ some .tag) :
+    (hw : ws'.all Tok.isWord = true) (hv : hasV ws' = false) :
     PhOK sp ty ws' := by
   have hvw := findIdx_V_words ws' hv
   unfold PhOK
@@ -280,7 +291,11 @@ theorem phrase_nf_noV (sp : Spec) (ty : Typ) (ws' : List Tok)
     case wos | was =>
       simp [processIntPh, stOf,  bind, Except.bind, pure, Except.pure, grpsPh, Out.main, linPh, findIdx, removeAt,
         flatVP, flatVP_append, flatVP_words, flatVP_objNodes, flatVP_ppNodes, agrPlain, agrAtVerb_none]
-    case tag => exact absurd rfl hi
+    case tag =>
+      have hnone := find?_V_words_none ws' hv (objNodes obj ++ ppNodes pl) (find?_V_compl obj pl)
+      simp [processIntPh, tagQuestionPh, hnone, stOf, bind, Except.bind, pure, Except.pure, grpsPh, Out.main, linPh,
+        flatVP, flatVP_append, flatVP_words, flatVP_objNodes, flatVP_ppNodes, agrPlain]
+      exact fin _
     case wod | wad =>
       cases obj with
       | none =>
@@ -332,51 +347,21 @@ theorem phrase_nf_noV (sp : Spec) (ty : Typ) (ws' : List Tok)
             flatVP, flatVP_append, flatVP_words, flatVP_objNodes, flatVP_ppNodes, agrPlain, ppToks] <;>
           exact fin _
 
-theorem find?_V_words_none (ws : List Tok) (hv : hasV ws = false) (C : List PNode)
-    (hC : C.find? (fun n => n.ct == .V) = none) :
-    (ws.map PNode.word ++ C).find? (fun n => n.ct == .V) = none := by
-  rw [List.find?_append, hC]
-  have : (ws.map PNode.word).find? (fun n => n.ct == .V) = none := by
-    rw [List.find?_eq_none]
-    intro x hx
-    have := findIdx_V_words ws hv x hx
-    simpa using this
-  simp [this]
-
-/-- `cannot` alone + tag question: `currV` is None and `currV.getProp` raises -/
-theorem phrase_tag_noV (sp : Spec) (ty : Typ) (ws : List Tok) (hv : hasV ws = false) (hi : ty.int = some .tag) :
-    realizePhraseW sp ty ws = .error .attributeError := by
-  simp only [realizePhraseW, mid_state]
-  generalize midPh sp ty.pas = m
-  obtain ⟨subj, obj, pl, agr, g, pd⟩ := m
-  obtain ⟨neg, pas, perf, prog, contr, exc, md, i⟩ := ty
-  simp only at hi
-  subst hi
-  have h := find?_V_words_none ws hv (objNodes obj ++ ppNodes pl) (find?_V_compl obj pl)
-  simp [processIntPh, tagQuestionPh, stOf, h, bind, Except.bind]
-
 /-- **normal form of the constituent notation**, for the words affixHopping really returns -/
-theorem phrase_nf (sp : Spec) (ty : Typ) :
-    PhOK sp ty (clauseWords sp ty) ∨
-    (hasV (clauseWords sp ty) = false ∧ ty.int = some .tag ∧ realizePhrase sp ty = .error .attributeError) := by
+theorem phrase_nf (sp : Spec) (ty : Typ) : PhOK sp ty (clauseWords sp ty) := by
   have hsh := words_shape sp.verb sp.t ty
   have hall : (clauseWords sp ty).all Tok.isWord = true := by
     unfold wordsShape at hsh
     simp only [Bool.and_eq_true] at hsh
     exact hsh.1
   by_cases hv : hasV (clauseWords sp ty) = true
-  · left
-    generalize hws : clauseWords sp ty = ws at hall hv
+  · generalize hws : clauseWords sp ty = ws at hall hv
     cases ws with
     | nil => simp [hasV] at hv
     | cons w0 ws' =>
       simp only [List.all_cons, Bool.and_eq_true] at hall
       exact phrase_nf_hasV sp ty w0 ws' hall.1 hall.2 hv
   · have hv' : hasV (clauseWords sp ty) = false := by simpa using hv
-    by_cases hi : ty.int = some .tag
-    · right
-      exact ⟨hv', hi, phrase_tag_noV sp ty _ hv' hi⟩
-    · left
-      exact phrase_nf_noV sp ty _ hall hv' hi
+    exact phrase_nf_noV sp ty _ hall hv'
 
 end Pyrealb.ClauseEn
